@@ -158,3 +158,9 @@ def issue_wf(x):
 def joined_offset(parts: "List[HedString]", j: "Int") -> "Int":
     """start of part j inside ','.join(parts): every earlier part contributes its length plus one comma"""
     return 0 if j <= 0 else joined_offset(parts, j - 1) + parts[j - 1].span[1] + 1
+
+
+# ----------------------------------------------------------------------------- definitions (C09)
+def hash_tag_count(tags: "List[HedTag]", n: "Int") -> "Int":
+    """how many of tags[:n] contain a '#' in their text"""
+    return 0 if n <= 0 else hash_tag_count(tags, n - 1) + (1 if '#' in tags[n - 1].__str__ else 0)
